@@ -3,7 +3,7 @@ from props._e3 import make
 
 globals().update(make(
     'C05', ('buf',),
-    [('buffers', 6), ('noise', 2), ('general', 2), ('batching', 1), ('contention', 1)],
+    [('buffers', 6), ('noise', 4), ('general', 2), ('batching', 1), ('contention', 1)],
     'Oracle after every event, per buffer: level() == number of leaf parts stored (every part of a batch counts) <= '
     'capacity; the stored sequence evolves only by removing a prefix (head first) and appending at the tail, in '
     'arrival order; a part leaves no earlier than arrival + minimum delay - exact on the dyadic grid, and within '
